@@ -56,6 +56,10 @@ pub struct LifeDesc {
     /// exactly k instructions of code under test
     #[serde(default)]
     pub fine: Option<(usize, usize, u64)>,
+    /// allocator knob override (freed JIT blocks handed out again, role-preserving order);
+    /// absent = drawn from the run seed
+    #[serde(default)]
+    pub page_reuse: Option<(bool, bool)>,
     #[serde(default)]
     pub schedule: Option<Vec<u8>>,
 }
@@ -1206,6 +1210,55 @@ pub fn generate_owner_race(run_seed: u64) -> LifeDesc {
         threads,
         teardown_seed: rng::derive(run_seed, &[rng::label("teardown")]),
         fine,
+        page_reuse: None,
+        schedule: None,
+    }
+}
+
+/// Sub-scenario "reload-loop" (hot reload, the title of the property): one runtime, three to six
+/// generations of the script compiled one after the other, each called and then released before
+/// (or, sometimes, just after) the next one is compiled, with the allocator handing freed JIT
+/// blocks out again in the same role - anything that remembers an *address* of machine code or
+/// of its data (a cache of literals, of entry points, of constant slots) meets it again with
+/// other contents behind it.
+pub fn generate_reload_loop(run_seed: u64) -> LifeDesc {
+    let mut r = Rng::new(rng::derive(run_seed, &[rng::label("reload-loop")]));
+    let mut setup = vec![LifeOp::NewRuntime { r: 0, rid: 0 }];
+    let n = 3 + r.below(4);
+    let mut k = 1 + r.below(5);
+    for i in 0..n {
+        // the old generation goes away before the new one is compiled - or right after
+        let late_drop = i > 0 && r.chance(1, 4);
+        if i > 0 && !late_drop {
+            setup.push(LifeOp::DropHandle { h: 0 });
+            setup.push(LifeOp::DropHandle { h: 1 });
+        }
+        setup.push(LifeOp::Compile { r: 0, p: (i % 2) as usize, m: i, k });
+        if late_drop {
+            setup.push(LifeOp::DropHandle { h: 0 });
+            setup.push(LifeOp::DropHandle { h: 1 });
+        }
+        let p = (i % 2) as usize;
+        setup.push(LifeOp::GetHandle { p, h: 0, which: *r.pick(&[0u8, 1, 4]) });
+        setup.push(LifeOp::GetHandle { p, h: 1, which: *r.pick(&[0u8, 1, 4, 2]) });
+        setup.push(LifeOp::DropPackage { p });
+        setup.push(LifeOp::Call { h: 0, x: r.below(1000) });
+        setup.push(LifeOp::Call { h: 1, x: r.below(1000) });
+        // another version next time (same length of every literal: versions are one digit)
+        k = 1 + (k + r.below(4)) % 5;
+    }
+    let threads = vec![vec![LifeOp::Call { h: 0, x: r.below(1000) }, LifeOp::DropHandle { h: 0 }, LifeOp::Call { h: 1, x: r.below(1000) }]];
+    LifeDesc {
+        property: "C11".into(),
+        scenario: "reload-loop".into(),
+        run_seed,
+        strategy: "sticky95".into(),
+        sched_seed: rng::derive(run_seed, &[rng::label("schedule")]),
+        setup,
+        threads,
+        teardown_seed: rng::derive(run_seed, &[rng::label("teardown")]),
+        fine: None,
+        page_reuse: Some((true, r.chance(2, 3))),
         schedule: None,
     }
 }
@@ -1344,6 +1397,7 @@ pub fn generate(run_seed: u64, thorough: bool) -> LifeDesc {
         threads,
         teardown_seed: rng::derive(run_seed, &[rng::label("teardown")]),
         fine,
+        page_reuse: None,
         schedule: None,
     }
 }
@@ -1369,10 +1423,10 @@ pub fn execute(d: &LifeDesc, keep_trace: bool) -> RunResult {
     IN_CALL.store(0, SeqCst);
     IN_COMPILE.store(0, SeqCst);
     // swarm knob: in one run of three freed JIT pages are handed out again instead of quarantined
-    let page_reuse = crate::rng::derive(d.run_seed, &[crate::rng::label("page-reuse")]) % 3 == 0;
+    let page_reuse = d.page_reuse.map(|x| x.0).unwrap_or(crate::rng::derive(d.run_seed, &[crate::rng::label("page-reuse")]) % 3 == 0);
     alloc::PAGE_REUSE.store(page_reuse, SeqCst);
     // ... and in half of those a module of the same shape gets every block back in the same role
-    alloc::PAGE_REUSE_SAME_ROLE.store(crate::rng::derive(d.run_seed, &[crate::rng::label("page-reuse")]) % 6 == 0, SeqCst);
+    alloc::PAGE_REUSE_SAME_ROLE.store(d.page_reuse.map(|x| x.1).unwrap_or(crate::rng::derive(d.run_seed, &[crate::rng::label("page-reuse")]) % 6 == 0), SeqCst);
     let mut res = RunResult::default();
 
     // phase 1 on the main thread (code under test allocates in RUN mode)
